@@ -7,6 +7,7 @@ ASSUME = ["totality is decided for all token sequences up to the stated length o
           "'results unchanged by layout' is implied by equal configurations (the engine is built from the configuration alone)"]
 
 SEL = {"cols": ("id, limit_x, order1", ["id", "limit_x", "order1"]), "aliases": ("id AS fromage, v AS selectee, 'a LIMIT 3' AS lit", ["fromage", "selectee", "lit"]),
+       "index": ("id, m[1][0] AS mm, cfg['a']['b'] AS cb, rows[0].v AS rv, o.f AS of1", ["id", "mm", "cb", "rv", "of1"]),
        "aggs": ("g, count(*) AS c, sum(v) AS s", ["g", "c", "s"]), "aggs2": ("g, avg(v) AS a, max(v) AS mx", ["g", "a", "mx"])}
 WHERE = {"none": ("", ""), "cmp": ("v > 1", "v>1"), "kwlit": ("v > 1 AND name != 'ORDER BY x'", "v>1&&name!='ORDERBYx'"), "andor": ("v >= 2 AND w < 5 OR g = 'WHERE'", "v>=2&&w<5||g=='WHERE'")}
 WIN = {"none": ("", "", []), "tumbling": ("TumblingWindow('10s')", "tumbling", ["10000ms"]), "sliding": ("SlidingWindow('30s', '10s')", "sliding", ["30000ms", "10000ms"]),
@@ -43,6 +44,8 @@ def build(o):
     if o["limit"]: txt += " LIMIT %d" % o["limit"]
     exp = {"fields": fields, "where": wexp, "limit": o["limit"], "distinct": 1 if o["distinct"] else 0, "order": [x.format(a0=a0, a1=a1) for x in oexp],
            "joins": jexp, "groups": groups, "nsel": len(fields)}
+    if o["sel"] == "index":      # the item texts as the parser must keep them (a blank inside m[1][0] changes what is selected)
+        exp["simple"] = ["id", "m[1][0]:mm", "cfg['a']['b']:cb", "rows[0].v:rv", "o.f:of1"]
     if hexp is not None:
         exp["having"] = hexp.format(a0=a0)
     if wtxt:
